@@ -689,6 +689,8 @@ fn resolve(raw: Vec<RawNode>, root_sel: Vec<u16>, shape: u8, profile: &ForestPro
                                 && o.name != sp.name
                                 && o.view.canonical_ty == sp.view.canonical_ty
                                 && o.view.canonical != "UniqueId"
+                                // half of the time the canonical spelling stays out: several aliases and no canonical one
+                                && (o.view.is_alias || rp.seed % 2 == 0)
                             {
                                 let seed2 = rp.seed.wrapping_add(1 + k as u64).wrapping_mul(0x9E37_79B9_7F4A_7C15);
                                 let v2 = match &o.view.canonical_ty {
